@@ -32,7 +32,16 @@ class C18(Prop):
         for i, k in enumerate(ks):
             n = rng.choice([0, 1, 2, 3, 8, 20]) if i % 50 else rng.choice([0, 100, 1200, 1500])
             p = [rng.randrange(256) for _ in range(n)]
-            pat = rng.choice(pats) if rng.random() < 0.7 else ",".join(str(rng.randrange(0, 6)) for _ in range(rng.randrange(1, 12)))
+            r = rng.random()
+            if r < 0.45:
+                pat = rng.choice(pats)
+            elif r < 0.6:
+                pat = ",".join(str(rng.randrange(0, 6)) for _ in range(rng.randrange(1, 12)))
+            else:
+                # reads that cross chunk boundaries and direct advances, incl. a partial advance inside the
+                # header followed by one that crosses into the payload
+                pat = ",".join(rng.choice(["r", "a", "a", ""]) + str(rng.choice([0, 1, 1, 2, 3, 4, 7, 9, 40]))
+                               for _ in range(rng.randrange(1, 6)))
             L.append("dgram enc %d %s %s" % (4 * k, hx(p), pat))
         for s in (1, 2, 3, 5, 2**62, 2**62 + 4, 2**64 - 4, 2**62 - 4):
             L.append("dgram enc %d 00 all" % s)
